@@ -226,7 +226,23 @@ class SymInt(int):
     def _bitop(self, *_a):
         raise PathAbort("bit operation on symbolic Int")
 
-    __and__ = __rand__ = __or__ = __ror__ = __xor__ = __rxor__ = _bitop
+    def __xor__(self, o):
+        # x ^ 0 = x ; x ^ 1 flips the lowest bit (exact for every python int); other operands are not modelled
+        if isinstance(o, SymInt) or not isinstance(o, int) or o not in (0, 1):
+            raise PathAbort("bit operation on symbolic Int")
+        if o == 0:
+            return self
+        return mk(z3.If(self.e % 2 == 0, self.e + 1, self.e - 1))
+
+    __rxor__ = __xor__
+
+    def __and__(self, o):
+        if isinstance(o, SymInt) or not isinstance(o, int) or o != 1:
+            raise PathAbort("bit operation on symbolic Int")
+        return mk(self.e % 2)
+
+    __rand__ = __and__
+    __or__ = __ror__ = _bitop
     __lshift__ = __rlshift__ = __rshift__ = __rrshift__ = __invert__ = _bitop
 
     __eq__ = _cmp(lambda a, b: a == b)
